@@ -198,7 +198,7 @@ def gen_history(rng, n_ops=None, p_force=0, p_invalid=0, p_retry=0, p_gap=0):
         k = rng.below(100)
         if k < 12 and last:
             nm = rng.choice(sorted(last))
-            ops.append({"op": "delete", "name": B(nm)})
+            ops.append({"op": "delete", "name": B(nm), "tomb": rng.chance(1, 3)})
             last.pop(nm, None)
         elif k < 12 + p_retry and ops:
             # mostly legal re-deliveries: an object the client library refuses (its creation is requeued),
@@ -226,6 +226,7 @@ def gen_history(rng, n_ops=None, p_force=0, p_invalid=0, p_retry=0, p_gap=0):
         if a not in names:
             names.append(a)
     return {"hosts": [B(h) for h in hosts_for(names)], "xp": [[B(h), B(x)] for h, x in xprobes_for(names, rng)],
+            "mid": True, "via": rng.below(2),
             "ops": ops, "clusters": [B(c) for c in clusters],
             "schemas": [B(s) for s in SCHEMAS] + [B(b""), B(b"nosuch")],
             "fresh": [rng.below(4) for _ in range(3)], "views": True}
@@ -286,7 +287,7 @@ def gen_conflict_history(rng):
     filler(rng.below(2))
     k = rng.below(10)
     if k < 5:                                                       # the reason for the rejection disappears
-        ops.append({"op": "delete", "name": B(b)})
+        ops.append({"op": "delete", "name": B(b), "tomb": rng.chance(1, 3)})
         last.pop(b, None)
     elif k < 9:
         o = gen_obj(rng, b, free, last[b], history=versions.get(b, ()))
@@ -299,6 +300,7 @@ def gen_conflict_history(rng):
         ops.append({"op": "retry", "k": k_stale})
     names = list(clusters) + [al for al in aliases if al not in clusters]
     return {"hosts": [B(h) for h in hosts_for(names)], "xp": [[B(h), B(s)] for h, s in xprobes_for(names, rng)],
+            "mid": True, "via": rng.below(2),
             "ops": ops, "clusters": [B(c) for c in clusters],
             "schemas": [B(s) for s in SCHEMAS] + [B(b""), B(b"nosuch")],
             "fresh": [rng.below(4) for _ in range(3)], "views": True}
